@@ -12,7 +12,7 @@ from .mp_common import impl, describe  # noqa: F401  (plugin API)
 PROPERTY = "C15"
 LEAN_MODULES = ["BaizeVerif.Props.C15"]
 MODEL_MODULES = ["BaizeVerif.Model.Multipart"]
-DRIVER_OPS = {"mp_stream": "Multipart.runStream", "mp_astream": "Multipart.runStream"}
+DRIVER_OPS = {"mp_stream": "Multipart.runStream", "mp_astream": "Multipart.runStream", "mp_stream_min": "Multipart.runStream", "mp_astream_min": "Multipart.runStream"}
 GEN_MODULES = ["c01"]
 THEOREMS = [
     "Baize.Multipart.limits_pinned",
@@ -100,6 +100,9 @@ def _stream(op, b, cs, mp, mm, chunks):
     return "%s %s %s %d %s %s" % (op, enc(b), cs, mp, "none" if mm is None else mm, M.enc_chunks(chunks))
 
 
+STREAMS = ["mp_stream", "mp_astream", "mp_stream", "mp_astream", "mp_stream_min", "mp_astream_min"]
+
+
 def cases(rng, tier):
     yield from corpus_lines(PROPERTY)
     n = 500 if tier == "quick" else 8000
@@ -112,7 +115,7 @@ def cases(rng, tier):
         for _ in range(3):
             mp = rng.choice([max(k - 1, 0), k, k + 1, 324])
             mm = rng.choice([None, max(fb - 1, 0), fb, fb + 1, 0])
-            yield _stream(rng.choice(["mp_stream", "mp_astream"]), b, "utf8", mp, mm, M.rand_partition(rng, body))
+            yield _stream(rng.choice(STREAMS), b, "utf8", mp, mm, M.rand_partition(rng, body))
     m = 40 if tier == "quick" else 400
     for _ in range(m):
         b = rng.choice([b"bd", b"-", b"X" * 30])
@@ -131,7 +134,7 @@ def cases(rng, tier):
         chunks = [body[i:i + size] for i in range(0, len(body), size)]
         fb = sum(len(p.content) for p in parts if p.filename is None)
         mm = rng.choice([None, fb, max(fb - 1, 0), 100])
-        yield _stream(rng.choice(["mp_stream", "mp_astream"]), b, "utf8", 324, mm, chunks)
+        yield _stream(rng.choice(STREAMS), b, "utf8", 324, mm, chunks)
     yield from _adversarial(rng, tier)
 
 
@@ -148,7 +151,7 @@ def _adversarial(rng, tier):
         body = M.encode_form(b, parts)
         size = rng.choice([1, 5, 64, 300])
         chunks = [body[i:i + size] for i in range(0, len(body), size)]
-        yield _stream(rng.choice(["mp_stream", "mp_astream"]), b, "utf8", 324, rng.choice([None, 50]), chunks)
+        yield _stream(rng.choice(STREAMS), b, "utf8", 324, rng.choice([None, 50]), chunks)
 
 
 # ---- extra: megabyte uploads against the real code only (too long for the list-based model) ---------
